@@ -642,8 +642,18 @@ class Discharger:
             gen = [cl["generics"] for bd in self.m.bodies.values() for cl in bd["calls"] if "Partial<" in cl["generics"]]
             return (not partial and not gen), "not-partial", "ErrMode::into_inner() is None only for Incomplete, which needs a Partial<_> stream; uses of Partial in the crate: %d (syntax) / %d (resolved generic arguments)" % (len(partial), len(gen))
         # nonempty: reduce()/first() of a value produced by Set(min≥1)/RepTill(min≥1)
-        if recv["k"] == "mcall" and recv["m"] == "first":
-            return self.first_unwrap(f, node, recv)
+        # an element of a collection that is Some exactly when the collection is not empty: first()/last()/pop(),
+        # iter().next() / into_iter().next(), get(0)
+        if recv["k"] == "mcall":
+            base = None
+            if recv["m"] in ("first", "last", "pop", "first_mut", "last_mut") and not recv["args"]:
+                base = recv["recv"]
+            elif recv["m"] == "next" and not recv["args"] and recv["recv"]["k"] == "mcall" and recv["recv"]["m"] in ("iter", "into_iter", "iter_mut") and not recv["recv"]["args"]:
+                base = recv["recv"]["recv"]
+            elif recv["m"] == "get" and len(recv["args"]) == 1 and rx.int_const(recv["args"][0]) == 0:
+                base = recv["recv"]
+            if base is not None and rx.var_name(base) is not None:
+                return self.first_unwrap(f, node, dict(recv, recv=base))
         if recv["k"] == "call" and recv["f"]["k"] == "path" and len(recv["args"]) == 1:
             hname = recv["f"]["segs"][-1]
             h = next((x for x in self.f.fns.values() if x.name == hname and not x.test), None)
